@@ -180,6 +180,13 @@ def normalize_key(
     return tuple(normalized_key)
 
 
+def check_linear_index(index: int, size: int) -> None:
+    """Raise `IndexError` for a linear index outside ``0 <= index < size`` (in every storage class alike)."""
+    if not (0 <= index < size):
+        msg = f"Linear index {index} is out of bounds for an array with {size} elements"
+        raise IndexError(msg)
+
+
 def get_storage_class(storage: str) -> type[StorageBase]:
     """Get the storage class by its identifier.
 
